@@ -1,7 +1,7 @@
 (* C18: evaluation of harness cases - dispatcher over all case kinds (Model.run_case for kinds 0..7,
    the FiberPool / pipeline / executor models for the kinds added later).  Definitions only. *)
 From ZV.Common Require Import Base Run.
-From ZV.C18 Require Import Model ModelFiber ModelPipe ModelExec ModelGlobalPar.
+From ZV.C18 Require Import Model ModelFiber ModelPipe ModelExec ModelGlobalPar ModelYield ModelStore ModelLife.
 Open Scope N_scope.
 
 (* kind 8 FiberPool history; 9 FiberPool::parallel_map (b = 0: preceded by the result-collection model of
@@ -13,7 +13,13 @@ Open Scope N_scope.
    16 hook-driven executor history with is_idle (op 6) and queue-length (op 40+w) observations: Model.case_hist on
    the history without these observers, then the fine-grained executor model; 17 single-worker execution order:
    Model.case_order, then the worker loop as atomic steps with the statistics;
-   18 concurrency::parallel_reduce (a = num_cpus::get()) *)
+   18 concurrency::parallel_reduce (a = num_cpus::get());
+   19 the yielding loops of fiber_yield.rs / FiberIoUtils::batch_process driven by hand (a = which, b = interval / batch size);
+   20 `buffered(max_concurrent)` of concurrent_with_yield / process_files_parallel with gated operations
+   (a = max_concurrent, b = number of operations, ops = items ++ gate order);
+   21 AsyncMemoryBlobStore history (put_batch / put / remove / get_batch / len);
+   22 hook-driven executor history with shutdown (op 7), a = workers, b = capacity;
+   23 FiberYield / YieldPoint history (a = object, b = initial budget / interval) *)
 Definition old_hist_op (o : Z) : bool := (1000 <=? o)%Z || ((o <? 40)%Z && negb (o =? 6)%Z).
 Definition run_case2 (fixed : bool) (kind a b : N) (ops : list Z) : list Z :=
   match kind with
@@ -29,5 +35,10 @@ Definition run_case2 (fixed : bool) (kind a b : N) (ops : list Z) : list Z :=
   | 16 => case_hist fixed a b (filter old_hist_op ops) ++ [(-8)%Z] ++ case_xhist a b ops
   | 17 => case_order fixed a ops ++ [(-8)%Z] ++ case_xorder a ops
   | 18 => case_g_reduce a ops
+  | 19 => case_yield a b ops
+  | 20 => case_buffered a b ops
+  | 21 => case_store ops
+  | 22 => case_life fixed a b ops
+  | 23 => case_fy a b ops
   | _ => run_case fixed kind a b ops
   end.
